@@ -234,7 +234,9 @@ Section F.
                   ~ In (pg ev) (Hd s)) ->
     FI (fst (Processor.flush fc fp lim_n lim_s fuel s bs i)).
   Proof.
-    induction fuel as [|f IH]; intros s bs i Hi P F Hin Nd Fr; simpl; auto.
+    induction fuel as [|f IH]; intros s bs i Hi P F Hin Nd Fr; simpl.
+    { destruct (Nat.ltb (bs_processed bs) (length (bs_results bs)) && nth i (bs_results bs) false); simpl; auto.
+      apply (FI_ext s _ []); auto. }
     destruct (Nat.ltb (bs_processed bs) (length (bs_results bs)) && nth i (bs_results bs) false); auto.
     destruct (nth_error (b_events (bs_batch bs)) i) as [ev|] eqn:En; auto.
     assert (Hev : In ev (tab s)) by (apply Hin; eapply nth_error_In; eauto).
@@ -267,14 +269,14 @@ Section F.
     FI (pstep_run s x).
   Proof.
     intros pre x s Nd [[Ihd Iqin Iqnd Iord] [Uarr Uun] P [Qev Qpg] St] F.
-    destruct x as [b0 | bid pos | | ]; simpl.
+    destruct x as [b0 | bid pos | | | | ]; simpl.
     - (* SEnq *)
-      unfold Processor.enqueue. destruct (stopped s); [exact F|].
+      unfold Processor.enqueue. destruct (quitf s || stopped s); [exact F|].
       destruct (_ || _).
       + apply (FI_ext s _ [PBusy (b_id b0)]); auto; try npp.
       + set (sm := mkPst (buf s) (pushed s) (tab s ++ b_events b0) (highest s) (held_n s + batch_num b0)
                          (held_s s + batch_size b0) (warned s) (queue s ++ [mkBs b0 [] [] (map (fun _ => false) (b_events b0)) 0 []])
-                         (plog s) (stopped s)).
+                         (plog s) (stopped s) (poof s) (quitf s)).
         assert (Fm : FI sm).
         { destruct F as [F1 F2 F3 F4].
           assert (Hpp : forall g e ok, In (PProcess g e ok) (plog s) -> In g (map pg (tab s))).
@@ -325,9 +327,9 @@ Section F.
         apply (FI_ext s1 _ []); auto. apply F2. apply Hev. eapply nth_error_In; eauto.
     - (* SStop *)
       unfold Processor.stop. destruct (stopped s); [exact F|].
-      set (s0 := match queue s with bs :: _ => pemit s (PAborted (b_id (bs_batch bs))) | [] => s end).
+      set (s0 := match queue s with bs :: _ => if quitf s then s else pemit s (PAborted (b_id (bs_batch bs))) | [] => s end).
       assert (F0 : FI s0 /\ buf s0 = buf s /\ pushed s0 = pushed s).
-      { unfold s0. destruct (queue s); [auto|]. split; [|auto].
+      { unfold s0. destruct (queue s); [auto|]. destruct (quitf s); [auto|]. split; [|auto].
         apply (FI_ext s _ [PAborted (b_id (bs_batch b))]); auto; try npp. }
       destruct F0 as [F0 [B0 Pu0]].
       destruct P as [[ops [Eb Elen]] _ _ _ _ _].
@@ -343,6 +345,9 @@ Section F.
         apply in_flat_map. exists o. split; [|exact Hc]. apply in_rev in Ho. eapply firstn_In. exact Ho. }
       match goal with |- FI (pemit ?sx PStopped) => apply (FI_ext (fold_left apply_out (delta (log (buf s0)) (log b1)) s1) _ [PStopped]); auto end;
       try npp.
+    - unfold quit. destruct (stopped s); [exact F|]. apply (FI_ext s _ []); auto.
+    - unfold abort. destruct (stopped s || negb (quitf s)); [exact F|]. destruct (queue s); [exact F|].
+      apply (FI_ext s _ [PAborted (b_id (bs_batch b))]); auto; try npp.
   Qed.
 
   Lemma FI_run : forall steps, NoDup (all_g steps) -> FI (prun h0 steps).
